@@ -531,7 +531,17 @@ class Kernel:
     def _round_cmp(self, a, b, op, k, p, t):
         """round(a v + b) op k, ties to even: round(x) >= m  <=>  x > m - 1/2, or x == m - 1/2 and m even."""
         if op in ('eq', 'ne'):
-            self.bad(t, '(equality on a rounded value)')
+            if F(k).denominator != 1:
+                return [(p, op == 'ne')]
+            m = int(k)
+            out = []
+            for pp, ge in self._round_cmp(a, b, 'ge', F(m), p, t):
+                if not ge:
+                    out.append((pp, op == 'ne'))
+                    continue
+                for p2, ge1 in self._round_cmp(a, b, 'ge', F(m + 1), pp, t):
+                    out.append((p2, (not ge1) if op == 'eq' else ge1))
+            return _mergeb(out)
         if op in ('lt', 'le'):
             neg = {'lt': 'ge', 'le': 'gt'}[op]
             return [(pp, not bv) for pp, bv in self._round_cmp(a, b, neg, k, p, t)]
